@@ -468,8 +468,12 @@ theorem held3_ibcFlow (cfg : Cfg) (op : IbcOp) (g' : Nat) (fl : List Prim) (h : 
         · cases h
   | toIbc g u n =>
     simp only [ibcFlow] at h; split at h
-    · cases h
-    · cases h; simp only [ibcDelta]; held3_simp <;> (repeat' split) <;> (try simp_all) <;> (try omega)
+    · split at h
+      · cases h; rfl
+      · cases h
+    · split at h
+      · cases h
+      · cases h; simp only [ibcDelta]; held3_simp <;> (repeat' split) <;> (try simp_all) <;> (try omega)
   | xfer g u n =>
     simp only [ibcFlow] at h; split at h
     · cases h
@@ -699,10 +703,14 @@ theorem stepIbc_holdings3 (cfg : Cfg) (s s' : State) (op : IbcOp) (g' : Nat) (x 
         · cases hf
   | toIbc g u n =>
     simp only [ibcFlow] at hf; split at hf
-    · cases hf
-    · cases hf; simp only [stated3]
-      acct3_simp
-      (repeat' split) <;> (try simp_all) <;> (try omega) <;> (try rfl) <;> (try (split <;> simp_all))
+    · split at hf
+      · cases hf; rfl
+      · cases hf
+    · split at hf
+      · cases hf
+      · cases hf; simp only [stated3]
+        acct3_simp
+        (repeat' split) <;> (try simp_all) <;> (try omega) <;> (try rfl) <;> (try (split <;> simp_all))
   | xfer g u n =>
     simp only [ibcFlow] at hf; split at hf
     · cases hf
@@ -758,9 +766,13 @@ theorem stepIbc_tbase (cfg : Cfg) (s s' : State) (op : IbcOp) (g' : Nat) (h : st
         · cases hf
   | toIbc g u n =>
     simp only [ibcFlow] at hf; split at hf
-    · cases hf
-    · cases hf
-      simp [Obs.flowDelta, tbaseObs, balObs, voucher, T, ibcRoute, baseCoinToIBCCoin, U] <;> (try (split <;> simp)) <;> (try omega)
+    · split at hf
+      · cases hf; rfl
+      · cases hf
+    · split at hf
+      · cases hf
+      · cases hf
+        simp [Obs.flowDelta, tbaseObs, balObs, voucher, T, ibcRoute, baseCoinToIBCCoin, U] <;> (try (split <;> simp)) <;> (try omega)
   | xfer g u n =>
     simp only [ibcFlow] at hf; split at hf
     · cases hf
